@@ -107,6 +107,7 @@ type World struct {
 	//   "mark-redundant"    no redundant marks
 	//   "reopen"            no close/open
 	//   "ts-nonphysical"    no tombstone whose target is absent, non-physical or a parent
+	//   "ts-link"           no tombstone that removes a stored non-REGULAR object with payload (link)
 	Avoid map[string]bool
 	// Excluded counts actions redirected because of Avoid.
 	Excluded int
@@ -245,6 +246,13 @@ func (w *World) avoidPut(a mm.Addr, s uni.Spec) bool {
 		ta := mm.Addr{C: a.C, I: s.Target}
 		if w.Avoid["ts-nonphysical"] && !w.plainPhysical(ta) {
 			return true
+		}
+		if w.Avoid["ts-link"] {
+			for _, k := range append(w.M.Children(ta), ta.I) {
+				if o := w.M.Get(mm.Addr{C: a.C, I: k}); o != nil && o.Type != mm.TRegular && o.Size > 0 {
+					return true
+				}
+			}
 		}
 		if w.Avoid["ts-on-marked"] {
 			if w.M.Mark(ta) != mm.MarkNone {
